@@ -21,11 +21,17 @@ _keys = _load("translate_c04keys", "c04keys.py")
 
 
 def _tables(ctx):
-    """Gen/C06Tables.v (FaceAttrs constants, SGR colour tables) used by the SGR payload model"""
+    """Gen/C06Tables.v (FaceAttrs constants, SGR colour tables) and Gen/C06CmdDFA.v (the command automaton), both used
+    by the SGR payload model this development imports from C06: regenerated here too, so that C04 never checks
+    against stale data of another property's run"""
     env = dict(ctx["env"], VERIF_REPO=ctx["repo"])
-    p = subprocess.run([sys.executable, os.path.join(ctx["root"], "translate", "c06gen.py"), "tables"], env=env,
-                       stdout=subprocess.PIPE, stderr=subprocess.STDOUT, text=True, timeout=900)
-    return p.returncode, p.stdout.strip()
+    gen = os.path.join(ctx["root"], "translate", "c06gen.py")
+    out, rc = [], 0
+    for args in (["tables"], ["dfa", ctx["exe"], "command", "C06CmdDFA"]):
+        p = subprocess.run([sys.executable, gen] + args, env=env, stdout=subprocess.PIPE, stderr=subprocess.STDOUT, text=True, timeout=900)
+        out.append(p.stdout.strip())
+        rc = rc or p.returncode
+    return rc, "\n".join(out)
 
 
 PROP = {
